@@ -6,6 +6,7 @@ from core import expr_str, strip, subexprs, AnchorMissing
 from absint import Interp, Sym, Agg, Ref, HRef, TOP, some, NONE, ok, err, std_oracle, chain
 from collmodel import coll_oracle, Vec, install, load, heap_get
 from c04 import StackModel
+import statemodel
 from c10 import mk_oracle
 import c07
 
@@ -47,11 +48,13 @@ def r1_acceptance(ctx):
                  # (3.0) is better than the current solution (5.0); the rule compares against the CURRENT solution
                  "mahf::state::State::best_objective_value": some(Agg("adt", SO, "SingleObjective", [3.0])),
                  "mahf::state::State::best_individual": some(indiv("best", 3.0)),
-                 "mahf::state::registry::StateRegistry::get_value": lambda interp, env, f, args, T=T: T if (f.get("gargs") or [""])[0] == TEMP else TOP}
-        it = install(Interp(fn.body, chain(mk_oracle(table), StackModel(sf), coll_oracle, std_oracle), [Sym("self"), Sym("problem"), Sym("state")], facts=F,
-                            inline=lambda k: k.startswith(POP + "::") or c07.INLINE(k), max_visits=8, max_paths=300))
+                 }
+        store = statemodel.Store(F, levels=1, auto=lambda ty, T=T: {0: Agg("adt", TEMP, "Temperature", [T])} if ty == TEMP else None)
+        it = install(Interp(fn.body, chain(mk_oracle(table), store, StackModel(sf), coll_oracle, std_oracle), [Sym("self"), Sym("problem"), Sym("state")], facts=F,
+                            inline=lambda k: k.startswith(POP + "::") or c07.INLINE(k) or statemodel.inline(k), max_visits=8, max_paths=300))
         it.init_state = {"stack": (Vec("bottom"), Vec("current"), Vec("candidate")), "next_vec": 0,
                          "heap": {"bottom": (indiv("b", 9.0),), "current": (indiv("cur", cur),), "candidate": (indiv("cand", cand),)}}
+        store.install(it)
         n += 1
         try:
             p_acc = math.exp(-(cand - cur) / T)
@@ -73,13 +76,14 @@ def r1_acceptance(ctx):
     for (b_, c_, k_, nc, nk) in shapes:
         popsym = Sym("populations", {sf: Sym("stack")})
         table = {"mahf::state::State::populations_mut": popsym, "mahf::state::State::populations": popsym, "mahf::state::State::random_mut": Sym("rng"),
-                 "rand::rng::Rng::gen": 0.5,
-                 "mahf::state::registry::StateRegistry::get_value": lambda interp, env, f, args: 1.0 if (f.get("gargs") or [""])[0] == TEMP else TOP}
-        it = install(Interp(fn.body, chain(mk_oracle(table), StackModel(sf), coll_oracle, std_oracle), [Sym("self"), Sym("problem"), Sym("state")], facts=F,
-                            inline=lambda k: k.startswith(POP + "::") or c07.INLINE(k), max_visits=8, max_paths=300))
+                 "rand::rng::Rng::gen": 0.5}
+        store = statemodel.Store(F, levels=1, auto=lambda ty: {0: Agg("adt", TEMP, "Temperature", [1.0])} if ty == TEMP else None)
+        it = install(Interp(fn.body, chain(mk_oracle(table), store, StackModel(sf), coll_oracle, std_oracle), [Sym("self"), Sym("problem"), Sym("state")], facts=F,
+                            inline=lambda k: k.startswith(POP + "::") or c07.INLINE(k) or statemodel.inline(k), max_visits=8, max_paths=300))
         stack = tuple(Vec(x) for x in (b_, c_, k_) if x)
         it.init_state = {"stack": stack, "next_vec": 0,
                          "heap": {"bottom": (indiv("b", 9.0),), "current": tuple(indiv("cur%d" % i, 5.0) for i in range(nc)), "candidate": tuple(indiv("cand%d" % i, 4.0) for i in range(nk))}}
+        store.install(it)
         n += 1
         for p in it.run():
             what = "%d population(s) on the stack" % len(stack) if len(stack) < 2 else "current population of %d, candidate population of %d individuals" % (nc, nk)
@@ -133,22 +137,31 @@ def r2_template(ctx):
 
 
 def r3_cooling(ctx):
+    """K6: the cooling component's lens is a lens onto one cell (every method of the lens family - get, get_ref, get_mut,
+    assign - reads / writes that cell); after one execution the cell holds T * alpha (multiplied exactly once) and the
+    component returns Ok"""
     F = ctx.facts
     adt = "mahf::components::mapping::sa::GeometricCooling"
     fn = F.method(adt, "execute", "mahf::components::Component")
     ai, li = F.field_index(adt, "alpha"), F.field_index(adt, "lens")
     mapfn = F.fn("<%s as mahf::components::mapping::Mapping>::map" % adt)
     bad = []
+    home = 10000
     for alpha, T in ((0.5, 8.0), (0.95, 100.0), (0.0, 3.0)):
         me = Sym("self", {ai: alpha, li: Sym("temperature-lens")})
-        log = []
+        other = []
 
-        def get(interp, env, f, args):
-            log.append(("get", getattr(load(interp, env, args[0]), "tag", "?")))
-            return ok(T)
-
-        def assign(interp, env, f, args):
-            log.append(("assign", getattr(load(interp, env, args[0]), "tag", "?"), load(interp, env, args[1])))
+        def lens(interp, env, f, args, kind):
+            who = getattr(load(interp, env, args[0]), "tag", "?")
+            if who != "temperature-lens":
+                other.append((kind, who))
+                return TOP
+            cell = Ref(home, [], frame="root")
+            if kind == "get":
+                return ok(interp.read_ref(env, cell))
+            if kind in ("get_ref", "get_mut"):
+                return ok(cell)
+            interp.write_ref(env, cell, load(interp, env, args[1]))
             return ok(Agg("tuple", None, None, []))
 
         def mapcall(interp, env, f, args):
@@ -156,15 +169,20 @@ def r3_cooling(ctx):
             if len(outs) == 1 and outs[0][2] == "return":
                 return outs[0][0]
             return TOP
-        table = {"mahf::lens::Lens::get": get, "mahf::lens::LensAssign::assign": assign, "mahf::components::mapping::Mapping::map": mapcall,
-                 "mahf::state::State::random_mut": Sym("rng")}
-        it = Interp(fn.body, chain(mk_oracle(table), std_oracle), [me, Sym("problem"), Sym("state")], facts=F, inline=lambda k: k == "mahf::components::mapping::mapping")
-        for p in it.run():
-            if p.end != "return" or not (isinstance(p.ret, Agg) and p.ret.variant == "Ok"):
-                bad.append((alpha, T, "%s %s" % (p.end, p.ret)))
-        want = [("get", "temperature-lens"), ("assign", "temperature-lens", T * alpha)]
-        if log != want:
-            bad.append((alpha, T, "performs %s, expected one read and one assignment of T*alpha through the same lens: %s" % (log, want)))
+        table = {"mahf::lens::Lens::get": lambda i, e, f, a: lens(i, e, f, a, "get"), "mahf::lens::LensRef::get_ref": lambda i, e, f, a: lens(i, e, f, a, "get_ref"),
+                 "mahf::lens::LensMut::get_mut": lambda i, e, f, a: lens(i, e, f, a, "get_mut"), "mahf::lens::LensAssign::assign": lambda i, e, f, a: lens(i, e, f, a, "assign"),
+                 "mahf::components::mapping::Mapping::map": mapcall, "mahf::state::State::random_mut": Sym("rng")}
+        it = install(Interp(fn.body, chain(mk_oracle(table), coll_oracle, std_oracle), [me, Sym("problem"), Sym("state")], facts=F, inline=lambda k: k == "mahf::components::mapping::mapping", max_visits=8))
+        it.extra_env = {home: T}
+        paths = it.run()
+        if len(paths) != 1 or paths[0].end != "return" or not (isinstance(paths[0].ret, Agg) and paths[0].ret.variant == "Ok"):
+            bad.append((alpha, T, "does not complete on a single path (%s)" % [(p.end, str(p.ret)[:40]) for p in paths]))
+            continue
+        after = paths[0].env.get(home)
+        if other:
+            bad.append((alpha, T, "reads / writes through %s, not its own lens" % other))
+        elif after != T * alpha:
+            bad.append((alpha, T, "leaves the temperature at %s, expected T * alpha = %s (multiplied exactly once)" % (after, T * alpha)))
     ctx.check(not bad, "C17.R3", fn.key, "multiply-once-through-one-lens", "alpha=%s, T=%s: cooling %s" % (bad[0] if bad else ("", "", "")), loc=fn.loc())
 
 
